@@ -29,6 +29,47 @@ def snapshot(aut):
         list(aut.bdd.vars))
 
 
+def primed_lists_ok(aut):
+    vl = aut.varlist
+    return all(
+        k + "'" in vl and list(vl[k + "'"]) == [v + "'" for v in vl[k]]
+        for k in ('env', 'sys'))
+
+
+def h_build(ctx):
+    """`Automaton.build` / `prime_varlists`: whatever the primed lists held
+    before (e.g. from an earlier partition of the variables), afterwards they
+    are exactly the primed copies of the current unprimed lists."""
+    import omega.symbolic.temporal as trl
+    w = ctx.w
+    aut = w.aut
+    sh = w.shape
+    pre = ctx.p.get('pre')
+    if pre == 'swapped':
+        aut.varlist["env'"] = [v + "'" for v in sh.sys]
+        aut.varlist["sys'"] = [v + "'" for v in sh.env]
+    elif pre == 'absent':
+        aut.varlist.pop("env'", None)
+        aut.varlist.pop("sys'", None)
+    elif pre == 'stale-extra':
+        aut.varlist["env'"] = list(aut.varlist.get("env'", [])) + ["zz'"]
+    before = {k: list(v) for k, v in aut.varlist.items()}
+    f = ctx.fn(trl.Automaton.build, overrides=None)
+    # `build` calls the method through `self`, so re-extract that too
+    g = ctx.fn(trl.Automaton.prime_varlists)
+    aut.prime_varlists = lambda keys=None: g(aut, keys)
+    ctx.call(f, aut, label='Automaton.build')
+    w.oblige('Automaton.build.post: primed lists are the primed copies of the current env / sys lists',
+             z3.BoolVal(primed_lists_ok(aut)))
+    w.oblige('Automaton.build.frame: unprimed lists unchanged',
+             z3.BoolVal(all(list(aut.varlist[k]) == before[k] for k in ('env', 'sys'))))
+    del aut.prime_varlists
+    ctx.call(g, aut, None, label='prime_varlists')
+    w.oblige('prime_varlists(None).post: every unprimed list has its primed copy',
+             z3.BoolVal(primed_lists_ok(aut)))
+    w.canary('build canary', z3.BoolVal(before == dict(aut.varlist)) if pre != 'fresh' else z3.BoolVal(False))
+
+
 def is_state_pred_syntactic(w, u):
     """support(u) within unprimed + rigid bits (what the real asserts demand)."""
     ok = set(w.groups(w.STATE))
@@ -67,6 +108,8 @@ def step_stub(ctx, log=None):
         assert aut is w.aut
         w.oblige('call step: requires target is a state predicate',
                  z3.BoolVal(is_state_pred_syntactic(w, target)), kind='pre')
+        w.oblige('call step: requires varlist[env\'], varlist[sys\'] are the primed copies of varlist[env], varlist[sys]',
+                 z3.BoolVal(primed_lists_ok(aut)), kind='pre')
         if log is not None:
             log.append(target)
         return w.node(cpre(env_action.t, sys_action.t, target.t))
@@ -349,5 +392,5 @@ def h_descendants(ctx):
     w.canary('descendants.canary: r == constrain', spec.equiv(w, tr, tcon))
 
 
-FUNCTIONS = dict(step=h_step, trap=h_trap, attractor=h_attractor,
+FUNCTIONS = dict(build=h_build, step=h_step, trap=h_trap, attractor=h_attractor,
                  ee_image=h_ee_image, descendants=h_descendants)
